@@ -1,9 +1,11 @@
 """C09 — allows_any is overlap (DESIGN §5 C09)."""
+from .. import invariant
 from .common import interval_table, set_table
 
 
 def check(ctx, rep):
     prog = ctx.prog()
+    invariant.check_invariant(ctx, rep, prog)
     rows_any = interval_table(ctx, rep, prog, "allows_any", "T-ANY", 1004,
                               "BoundSet::allows_any = max lower cut < min upper cut")
     rows_int = interval_table(ctx, rep, prog, "intersect", "T-INT", 1004,
